@@ -154,6 +154,8 @@ def run(tier):
         else:
             combos.append((vers_all[i % 6], i % 2 == 0))
         combos += forced.get(s, [])
+        if i % 5 == 0 or b"<<<" in s:
+            combos.append(("nil", i % 2 == 0))        # an omitted version means 7.4: the default path of parser.Parse
         for ver, nocb in dict.fromkeys(combos):
             tasks.append({"op": "analyze", "src": text, "ver": ver, "nocb": nocb, "limit_ms": 2000 + len(s) // 20, "_o": origin})
     res = wp.run([{k: v for k, v in t.items() if k != "_o"} for t in tasks])
